@@ -27,10 +27,63 @@ func (v *hasSideEffectVisitor) Visit(node ast.Node) (w ast.Visitor) {
 			v.hasSideEffect = true
 			return nil
 		}
+		// Converting a slice to an array (or array pointer) panics if it is too short.
+		if t := v.info.TypeOf(n.Fun); t != nil && len(n.Args) == 1 {
+			if _, fromSlice := v.info.TypeOf(n.Args[0]).Underlying().(*types.Slice); fromSlice {
+				switch u := t.Underlying().(type) {
+				case *types.Array:
+					v.hasSideEffect = true
+					return nil
+				case *types.Pointer:
+					if _, ok := u.Elem().Underlying().(*types.Array); ok {
+						v.hasSideEffect = true
+						return nil
+					}
+				}
+			}
+		}
 	case *ast.UnaryExpr:
 		if n.Op == token.ARROW {
 			v.hasSideEffect = true
 			return nil
+		}
+	case *ast.IndexExpr:
+		// Indexing may panic (out of range, nil array pointer), except for maps, generic
+		// instantiations and constant (compile-time checked) indices into arrays.
+		if tv, ok := v.info.Types[n.X]; ok && tv.IsType() {
+			break // instantiation of a generic type
+		}
+		switch t := v.info.TypeOf(n.X).Underlying().(type) {
+		case *types.Map, *types.Signature:
+		case *types.Array:
+			if tv, ok := v.info.Types[n.Index]; !ok || tv.Value == nil {
+				v.hasSideEffect = true
+				return nil
+			}
+		default:
+			_ = t
+			v.hasSideEffect = true
+			return nil
+		}
+	case *ast.SliceExpr, *ast.StarExpr, *ast.TypeAssertExpr:
+		// Out of range bounds, nil dereference and failed assertions panic.
+		v.hasSideEffect = true
+		return nil
+	case *ast.SelectorExpr:
+		// Field access through a pointer dereferences it.
+		if sel, ok := v.info.Selections[n]; ok && sel.Kind() == types.FieldVal && sel.Indirect() {
+			v.hasSideEffect = true
+			return nil
+		}
+	case *ast.BinaryExpr:
+		// Integer division by a non-constant divisor may panic.
+		if n.Op == token.QUO || n.Op == token.REM {
+			if b, ok := v.info.TypeOf(n.X).Underlying().(*types.Basic); ok && b.Info()&types.IsInteger != 0 {
+				if tv, ok := v.info.Types[n.Y]; !ok || tv.Value == nil {
+					v.hasSideEffect = true
+					return nil
+				}
+			}
 		}
 	}
 	return v
